@@ -590,3 +590,5 @@ func (s *Session) Do(fn func()) (blocked bool, dump string, done chan struct{}) 
 		}
 	}
 }
+
+func protocolURI(path string) protocol.DocumentURI { return protocol.DocumentURI("file://" + path) }
